@@ -510,6 +510,7 @@ class CIMDateTime(_CIMComparisonMixin, CIMType):
         elif isinstance(dtarg, CIMDateTime):
             self.__datetime = copy.copy(dtarg.datetime)
             self.__timedelta = copy.copy(dtarg.timedelta)
+            self.__precision = dtarg.precision
         else:
             raise TypeError(
                 _format("dtarg argument {0!A} has an invalid type: {1} "
@@ -794,7 +795,8 @@ class CIMDateTime(_CIMComparisonMixin, CIMType):
         if not isinstance(other, CIMDateTime):
             return False
         return (_eq_item(self.datetime, other.datetime) and
-                _eq_item(self.timedelta, other.timedelta))
+                _eq_item(self.timedelta, other.timedelta) and
+                _eq_item(self.precision, other.precision))
 
     def __hash__(self):
         """
@@ -805,6 +807,7 @@ class CIMDateTime(_CIMComparisonMixin, CIMType):
         hashes = (
             _hash_item(self.datetime),
             _hash_item(self.timedelta),
+            _hash_item(self.precision),
             # The 'is_interval' and 'minutes_from_utc' attributes are not used
             # for hash value calculation because they are derived attributes.
         )
